@@ -10,6 +10,10 @@ CLAIMED = {
     # id: (level text, design ref, technique)
     "C16": ("Bounded model checking of deblock() for every enumerated image size with fewer than two rows or fewer than ten columns (and small sizes with edges), symbolic content and strength: no panic / overflow / out-of-bounds, output equals the Annex J model; the strength table equals Table J.2 entry by entry.",
             "DESIGN.md 3/C16", "bounded model checking of the real code (Kani 0.68 / CBMC 6.11 + CaDiCaL)"),
+    "C07": ("Bounded model checking of the compiled 4-pixel kernel against the 16.16 fixed-point BT.601 formula for every input byte combination (all 2^24 colours in every lane), the formula itself shown within 1 of the exact rational BT.601 conversion, alpha 255, and monotonicity of each channel. No bound on values.",
+            "DESIGN.md 3/C07", "bounded model checking of the real code (Kani 0.68 / CBMC 6.11 + CaDiCaL), differential vs. fixed-point and exact-rational oracles"),
+    "C08": ("Bounded model checking of yuv420_to_rgba at enumerated sizes (all residues mod 4 / mod 2, 1-pixel rows and columns, several SIMD groups) with symbolic planes and a symbolic checked pixel; the colour kernel is replaced by a transparent stub so the query decides the wiring only.",
+            "DESIGN.md 3/C08", "bounded model checking of the real code (Kani 0.68 / CBMC 6.11 + CaDiCaL) with a transparent kernel stub"),
     "C09": ("Bounded model checking of the compiled deblocking code: both edge kernels are compared with an independent Annex J oracle for all 2^32 sample patterns x 12 strengths (x 8 lanes), and the whole-image function is compared sample-by-sample with 'Annex J horizontally then vertically' for symbolic image contents at enumerated sizes. A SAT verdict over all values inside the bounds; sizes outside the enumerated set are not claimed.",
             "DESIGN.md 3/C09", "bounded model checking of the real code (Kani 0.68 / CBMC 6.11 + CaDiCaL), differential vs. Annex J oracle"),
 }
